@@ -208,6 +208,9 @@ type verifIPTRule struct {
 
 var verifLight = false
 
+// verifNoSyn drops the SYN match dimension (used for the runs with two rules per side)
+var verifNoSyn = false
+
 func verifPickRule(t string) verifIPTRule {
 	r := verifIPTRule{}
 	if verifLight {
@@ -228,7 +231,9 @@ func verifPickRule(t string) verifIPTRule {
 	r.dport = vf.Int(t+".dport", 0, 2)
 	vf.Assume(vf.Or(vf.EqInt(r.dport, 0), vf.Or(vf.EqInt(r.proto, 1), vf.EqInt(r.proto, 2))))
 	r.state = vf.FixInt(vf.Int(t+".state", 0, 1))
-	if strings.HasPrefix(t, "a") {
+	if verifNoSyn {
+		r.syn = 0
+	} else if strings.HasPrefix(t, "a") {
 		r.syn = vf.FixInt(vf.Int(t+".syn", 0, 2))
 	} else {
 		r.syn = 2 * vf.FixInt(vf.Int(t+".syn", 0, 1))
@@ -301,6 +306,7 @@ func verifSpell(r verifIPTRule, t string, kernel bool) string {
 // VerifIPTables: one chain with up to N rules per side.
 func VerifIPTables() {
 	N, _ := strconv.Atoi(vf.Param("N", "1"))
+	verifNoSyn = vf.Param("nosyn", "0") == "1"
 	vf.Assumption("iptables rules are built from abstract fields (source none/host/net, negation, protocol none/tcp/udp/vrrp, dport none/80/80..65535, state, SYN flag match --syn / --tcp-flags FIN,SYN,RST,ACK SYN with and without negation on the device and negated in the target, jump) in the documented spellings of Netspoc and of iptables-save (/32, upper/lower case, vrrp|112, -m <proto>, 080, 80:|80:65535, state order, '!' before or behind the key)")
 	n := vf.Int("n", 0, N)
 	m := vf.Int("m", 0, N)
